@@ -88,6 +88,7 @@ type Server struct {
 
 	lastWorldChange time.Duration // last scenario-driven change of this server (not by mysync)
 	LagOverride     *float64      // scripted answer of the custom replication_lag query
+	LagNull         bool          // the custom replication_lag query answers NULL
 }
 
 type slaveEvent struct{ schema, name, definer string }
@@ -487,6 +488,9 @@ func (w *World) exec(sv *Server, c *call) (res sqlResult, deferred bool) {
 	case strings.HasPrefix(q, "SELECT verif_lag AS Seconds_Behind_Master"):
 		if !sv.HasChannel {
 			return sqlResult{cols: []string{"Seconds_Behind_Master"}}, false
+		}
+		if sv.LagNull {
+			return one([]string{"Seconds_Behind_Master"}, nil), false
 		}
 		if sv.LagOverride != nil {
 			return one([]string{"Seconds_Behind_Master"}, *sv.LagOverride), false
